@@ -38,6 +38,9 @@ def class_methods(P, clsq, skip=()):
             if 'staticmethod' in decs:
                 return fn
             return Bound(fn, obj)
+        if r is not None and r[0] == 'prop' and r[1].get('fget') is not None:
+            fi = r[1]['fget']
+            return itp.call_fn(Fn(fi.node, None, module_glob(P, fi.module, obj.hooks.get('overrides')), fi.name), [obj], {})
         return KeyError
     return hook
 
@@ -67,6 +70,20 @@ def mk_axis(name, size, labels=None, attrs=None, types=('Axis', 'AbstractAxis'),
         c.attrs['_copy_of'] = o
         return c
     ax.methods['copy'] = copy
+
+    def sort(itp, o, a, k):
+        if a or k:
+            raise Undecided('Axis.sort with arguments')
+        v = o.attrs['values']
+        if isinstance(v, list):
+            try:
+                o.attrs['values'] = sorted(v)
+                return None
+            except TypeError:
+                raise Raised('TypeError')
+        o.attrs['values'] = v if (isinstance(v, Sym) and v.t[0] == 'call' and v.t[1] == 'SORTED') else Sym('call', 'SORTED', (v,), {})
+        return None
+    ax.methods['sort'] = sort
     ax.hooks['length'] = lambda itp, o: o.attrs['size'] if isinstance(o.attrs['size'], int) else (_ for _ in ()).throw(Undecided('len of an axis of unknown size'))
 
     def getitem(itp, o, i):
@@ -105,7 +122,7 @@ def mk_axis(name, size, labels=None, attrs=None, types=('Axis', 'AbstractAxis'),
     ax.hooks['eq'] = lambda itp, o, other: o is other or (isinstance(other, Obj) and render(other.attrs.get('values')) == render(o.attrs.get('values'))
                                                          and other.attrs.get('name') == o.attrs.get('name'))
     if P_HOLDER:
-        ax.hooks['getattr'] = class_methods(P_HOLDER[0], AXIS, skip=('copy', 'name', 'size', 'values', 'attrs', 'tol', '__getitem__', '__setitem__', 'dtype'))
+        ax.hooks['getattr'] = class_methods(P_HOLDER[0], AXIS, skip=('copy', 'sort', 'name', 'size', 'values', 'attrs', 'tol', '__getitem__', '__setitem__', 'dtype'))
     return ax
 
 
@@ -1309,7 +1326,22 @@ def sc_operation(P):
     def ov():
         o = std_overrides(P)
         o['align_axes'] = lambda itp, a, k: tuple(Obj('aligned(%s)' % x.name, x.types, x.attrs, x.methods, **x.hooks) for x in itp.iterate(a[0]))
-        o['align_dims'] = lambda itp, a, k: tuple(Obj('samedims(%s)' % x.name, x.types, x.attrs, x.methods, **x.hooks) for x in a)
+        def align_dims(itp, a, k):
+            # what align_dims guarantees: both operands come back with all the dimensions (the first one's, then the new ones), a dimension an operand lacks
+            # being a placeholder axis of size 1 with the label None
+            dims = []
+            for x in a:
+                for d in x.attrs['dims']:
+                    if d not in dims:
+                        dims.append(d)
+            res = []
+            for x in a:
+                own = dict((ax.attrs['name'], ax) for ax in itp.iterate(x.attrs['axes']))
+                axes = [own[d] if d in own else mk_axis(d, 1, [None]) for d in dims]
+                res.append(mk_array(P, 'samedims(%s)' % x.name, None, None, axes=axes, values=Sym('call', 'SAMEDIMS', (x.attrs['values'], list(dims)), {}),
+                                    attrs=x.attrs['attrs'], overrides=std_overrides(P)))
+            return tuple(res)
+        o['align_dims'] = align_dims
         o['is_DimArray'] = lambda itp, a, k: isinstance(a[0], Obj) and 'DimArray' in a[0].types
         return o
     FUNC = lambda itp, a, k: Sym('call', 'FUNC', tuple(a), {})
@@ -1332,8 +1364,147 @@ def sc_operation(P):
     case('left operand with a real single label', lambda: [arr('A', [('x', 3), ('y', ['k'])]), arr('B', [('x', 3), ('y', ['k'])])])
     case('an empty dimension', lambda: [arr('A', [('x', [])]), arr('B', [('x', [])])])
     case('0-d and 1-d', lambda: [arr('A', []), arr('B', [('x', 3)])])
+    case('1-d and 0-d', lambda: [arr('A', [('x', 3)]), arr('B', [])])
+    case('disjoint dimensions', lambda: [arr('A', [('x', 3)]), arr('B', [('y', 2)])])
+    case('2-d and 1-d on the second dimension', lambda: [arr('A', [('x', 3), ('y', 2)]), arr('B', [('y', 2)])])
+    case('1-d and 2-d', lambda: [arr('A', [('y', 2)]), arr('B', [('x', 3), ('y', 2)])])
     case('no reindex, no broadcast', lambda: [arr('A', [('x', 3)]), arr('B', [('x', 3)])], reindex=False, broadcast=False)
     case('default constructor', lambda: [arr('A', [('x', 3)]), 2], constructor=None)
+    return out
+
+
+def reindexable(P, name, spec, labels=None, kind='DimArray'):
+    """an array (or Dataset-like holder of axes) whose reindex_axis(ax) gives a new object carrying `ax` in place of its own axis of that name"""
+    arr = arr_of(P, name, spec, labels)
+    if kind == 'Dataset':
+        arr.types = ('Dataset', 'AbstractHasAxes')
+        arr.hooks['render'] = lambda o: 'DATASET-LIKE(values=%s, axes=%s)' % (render(o.attrs['values']), render(o.attrs['axes']))
+
+    def reindex_axis(itp, o, a, k):
+        ax = a[0] if a else k.get('values')
+        if not (isinstance(ax, Obj) and 'Axis' in ax.types) or len(a) > 1 or any(kk != 'values' for kk in k):
+            raise Undecided('reindex_axis called with %s' % render(list(a) + sorted(k.items()))[:80])
+        old = itp.iterate(o.attrs['axes'])
+        names = [x.attrs['name'] for x in old]
+        if ax.attrs['name'] not in names:
+            raise Raised('ValueError')
+        new = reindexable(P, o.name, [(x.attrs['name'], x.attrs['size']) for x in old], None, kind)
+        new.attrs['axes'] = mk_axes([ax if x.attrs['name'] == ax.attrs['name'] else x for x in old])
+        # (re-indexing along different dimensions commutes: the order of the calls is not part of the outcome)
+        done = dict(o.attrs.get('_reindexed', {}))
+        done[ax.attrs['name']] = ax.attrs['values']
+        new.attrs['_reindexed'] = done
+        new.attrs['_base'] = o.attrs.get('_base', o.attrs['values'])
+        new.attrs['values'] = Sym('call', 'REINDEXED', (new.attrs['_base'],) + tuple(Sym('tok', '%s->%s' % (d, render(v))) for d, v in sorted(done.items())), {})
+        new.attrs['attrs'] = o.attrs['attrs']
+        return new
+    arr.methods['reindex_axis'] = reindex_axis
+    return arr
+
+
+def common_axis_stub(P):
+    """_common_axis(axes, join) as a black box: the inputs' own Axis object when all of them carry the same labels, else a new axis whose label token records the join"""
+    def f(itp, a, k):
+        holders = itp.iterate(a[0])
+        join = a[1] if len(a) > 1 else k.get('join', 'outer')
+        if not holders:
+            raise Raised('IndexError')
+        for h in holders:
+            if not (isinstance(h, Obj) and 'Axis' in h.types):
+                raise Raised('AttributeError')
+        toks = set(render(h.attrs['values']) for h in holders)
+        if len(toks) == 1:
+            return holders[0]
+        d = holders[0].attrs['name']
+        return mk_axis(d, 9, tok('COMMON_%s[join=%s]' % (d, render(join))))
+    return f
+
+
+def aligned_axes_stub(P):
+    """_get_aligned_axes as a black box: one axis per dimension (in order of first appearance, or the one named by `axis`): the common axis of the arrays that
+    have the dimension (common_axis_stub), a sorted copy of it with sort=True"""
+    def f(itp, a, k):
+        arrays = itp.iterate(a[0])
+        names = ('join', 'axis', 'sort', 'strict')
+        opts = {'join': 'outer', 'axis': None, 'sort': False, 'strict': False}
+        for n, v in zip(names, a[1:]):
+            opts[n] = v
+        for kk, vv in k.items():
+            if kk not in opts:
+                raise Raised('TypeError')
+            opts[kk] = vv
+        for x in arrays:
+            if not (isinstance(x, Obj) and 'AbstractHasAxes' in x.types):
+                raise Raised('AttributeError')
+        dims = []
+        if opts['axis'] is None:
+            for x in arrays:
+                for d in x.attrs['dims']:
+                    if d not in dims:
+                        dims.append(d)
+        elif isinstance(opts['axis'], str):
+            dims = [opts['axis']]
+        else:
+            raise Raised('ValueError')
+        out = []
+        for d in dims:
+            holders = [ax for x in arrays for ax in itp.iterate(x.attrs['axes']) if ax.attrs['name'] == d]
+            if opts['strict'] and len(holders) != len(arrays):
+                raise Raised('ValueError')
+            ax = common_axis_stub(P)(itp, [holders, opts['join']], {})
+            if opts['sort']:
+                ax = ax.methods['copy'](itp, ax, [], {})
+                ax.methods['sort'](itp, ax, [], {})
+            out.append(ax)
+        return mk_axes(out)
+    return f
+
+
+def sc_align(P):
+    out = []
+
+    def O():
+        ov = std_overrides(P)
+        ov['DimArray'] = dimarray_cls(P, ov)
+        ov['Dataset'] = TypeV('Dataset')
+        ov['_get_aligned_axes'] = aligned_axes_stub(P)
+        ov['_common_axis'] = common_axis_stub(P)
+
+        def get_dims(itp, a, k):
+            dims = []
+            for x in a:
+                for d in x.attrs['dims']:
+                    if d not in dims:
+                        dims.append(d)
+            return dims
+        ov['get_dims'] = get_dims
+        return {'overrides': ov, 'oracle': label_oracle}
+    xy = [('x', 2), ('y', 3)]
+    R = lambda name, spec, lab=None, kind='DimArray': reindexable(P, name, spec, lab, kind)
+    out.append(('two arrays, same labels', lambda: ([[R('A', xy), R('B', xy)]], {}, O())))
+    out.append(('two arrays, labels differ along x', lambda: ([[R('A', xy), R('B', xy, {'x': 'L_xB'})]], {}, O())))
+    out.append(('two arrays, labels differ along x and y', lambda: ([[R('A', xy), R('B', xy, {'x': 'L_xB', 'y': 'L_yB'})]], {}, O())))
+    out.append(('three arrays, labels differ along x and y, third lacks y', lambda: ([[R('A', xy), R('B', xy, {'x': 'L_xB', 'y': 'L_yB'}), R('C', [('x', 2)], {'x': 'L_xC'})]], {}, O())))
+    out.append(('three arrays, 3-d, every dimension differs', lambda: ([[R('A', xy + [('z', 4)]), R('B', xy + [('z', 4)], {'x': 'L_xB', 'y': 'L_yB', 'z': 'L_zB'}),
+                                                                       R('C', [('z', 4), ('x', 2)], {'x': 'L_xC'})]], {}, O())))
+    out.append(('tuple of arrays', lambda: ([(R('A', xy), R('B', xy, {'x': 'L_xB'}))], {}, O())))
+    out.append(('second array lacks a dimension', lambda: ([[R('A', xy), R('B', [('y', 3)], {'y': 'L_yB'})]], {}, O())))
+    out.append(('disjoint dimensions', lambda: ([[R('A', [('x', 2)]), R('B', [('y', 3)])]], {}, O())))
+    out.append(('axis="y" only', lambda: ([[R('A', xy), R('B', xy, {'x': 'L_xB', 'y': 'L_yB'})]], {'axis': 'y'}, O())))
+    out.append(('axis given by position (invalid)', lambda: ([[R('A', xy), R('B', xy, {'x': 'L_xB'})]], {'axis': 0}, O())))
+    out.append(('join="inner"', lambda: ([[R('A', xy), R('B', xy, {'x': 'L_xB'})]], {'join': 'inner'}, O())))
+    out.append(('sort=True', lambda: ([[R('A', xy), R('B', xy, {'x': 'L_xB'})]], {'sort': True}, O())))
+    out.append(('strict=True, same dimensions', lambda: ([[R('A', xy), R('B', xy, {'x': 'L_xB'})]], {'strict': True}, O())))
+    out.append(('strict=True, second array lacks a dimension', lambda: ([[R('A', xy), R('B', [('y', 3)])]], {'strict': True}, O())))
+    out.append(('positional options (inner, "x", True, True)', lambda: ([[R('A', xy), R('B', xy, {'x': 'L_xB', 'y': 'L_yB'})], 'inner', 'x', True, True], {}, O())))
+    out.append(('a scalar among the arrays', lambda: ([[R('A', xy), 3, R('B', xy, {'x': 'L_xB'})]], {}, O())))
+    out.append(('a string among the arrays', lambda: ([[R('A', xy), 'text']], {}, O())))
+    out.append(('a list among the arrays (invalid)', lambda: ([[R('A', xy), [1, 2]]], {}, O())))
+    out.append(('a Dataset among the arrays', lambda: ([[R('A', xy), R('D', xy, {'x': 'L_xD'}, 'Dataset')]], {}, O())))
+    out.append(('one array', lambda: ([[R('A', xy)]], {}, O())))
+    out.append(('empty list', lambda: ([[]], {}, O())))
+    out.append(('not a list', lambda: ([R('A', xy)], {}, O())))
+    out.append(('caller\'s list afterwards', lambda: (lambda lst: ([lst], {}, dict(O(), post=lambda itp, r: render([r, 'input list:', lst]))))([R('A', xy), R('B', xy, {'x': 'L_xB'})])))
     return out
 
 
@@ -1363,6 +1534,7 @@ SCENARIOS = {
     'dimarray.core.axes.MultiAxis._get_values': (('C11',), sc_multiaxis(None, '_get_values')),
     'dimarray.core.axes.MultiAxis.values': (('C11',), sc_multiaxis(None, 'values')),
     'dimarray.core.axes.MultiAxis.size': (('C11',), sc_multiaxis(None, 'size')),
+    'dimarray.core.align.align': ((), sc_align),         # the decision procedure of c06.rule_align (C04-R7, C06-R3, C12-R7, C13-R7)
     'dimarray.core.align.stack': (('C12', 'C05'), sc_stack),
     'dimarray.core.align.concatenate': (('C12',), sc_concatenate),
     'dimarray.core.reshape.transpose': (('C10', 'C04', 'C12'), sc_transpose),
